@@ -142,6 +142,8 @@ def run(tier, seed, rng):
         seqs = [[mk(1, 5), mk(2, 700), mk(1, 9), mk(2, 3), mk(1, 5)], [mk(2, 1), mk(1, 1), mk(2, 2), mk(1, 2)]]
         for vs in seqs:
             G.add_extra(2, dict(op='eq_interleaved', values=[pktcases.jvalue(v) for v in vs]))
+        for cc in (2, 3):          # the declared default of the selected reference is a packet INSTANCE: every constructed packet gets its own copy
+            G.add_extra(cc, dict(op='default_pair_each', value=pktcases.jvalue(('pkt', cc, {}))))
         G.add_extra(3, dict(op='eq_interleaved', values=[pktcases.jvalue(('pkt', 3, {0: [mk(1, 5), mk(2, 6), mk(1, 7)]})),
                                                        pktcases.jvalue(('pkt', 3, {0: [mk(2, 8), mk(1, 9), mk(2, 8)]}))]))
         groups.append(G)
